@@ -97,6 +97,16 @@ CHECKS = {
         "Call-form and function-name spacing rules are validated on the output AST.",
    design="5/C11", technique="Coq proof of the quote rule + rule evaluation on every output token",
    note=BASE_NOTE),
+ "C08": dict(
+   text="Theorems on the block loop over abstract statements (whatever the formatter does to a formatted statement): an ignored statement and its semicolon come out exactly as written for every neighbourhood; formatted statements do not depend on their neighbours' mode; the loop before the repair is refuted. "
+        "Validation: every ignored statement (any depth, with semicolon) and ignored table field of generated programs is cut out by byte position from input and output and compared.",
+   design="5/C08", technique="Coq proof on the block loop + byte comparison of every ignored node on generated programs",
+   note=BASE_NOTE + "The loop model is hand-written; its tie is the byte comparison (an ignored node that changes contradicts skip_verbatim)."),
+ "C09": dict(
+   text="Theorems on the same block model: an out-of-range statement keeps its semicolon and is only visited inside; two runs that both format a statement give it the same result whatever they do to its neighbours (in range = whole file). "
+        "Validation: for 4 range shapes per program, every statement is classified by byte position; outside statements must be byte-identical, in-range ones equal to the whole-file run, and the bytes around the affected statements unchanged.",
+   design="5/C09", technique="Coq proof on the block loop + per-statement byte comparison against input and whole-file run",
+   note=BASE_NOTE + "Two known classes (anonymous functions in non-visited expressions; full_moon end positions) are listed findings."),
 }
 PENDING = {}
 def main():
